@@ -192,7 +192,8 @@ fn div_model(a: &Decimal, b: &Decimal) -> Option<Decimal> {
         while i < MEMO {
             match &DIV_MEMO[i] {
                 Some((x, y, q)) => {
-                    if *x == ka && *y == kb {
+                    // compared as integers: `==` on [u8; 16] is a 16-iteration memcmp loop
+                    if u128::from_le_bytes(*x) == u128::from_le_bytes(ka) && u128::from_le_bytes(*y) == u128::from_le_bytes(kb) {
                         return Some(Decimal::deserialize(*q));
                     }
                 }
